@@ -41,8 +41,30 @@ var (
 		}
 		return fmt.Sprintf("10.0.%d.%d", i/200, 1+i%200)
 	})
-	c09Upstreams = []string{"", "8.8.8.8:53", "1.1.1.1:53", "tls://9.9.9.9"}
+	c09Upstreams = c09MakeNames(func(i int) string {
+		switch i {
+		case 1:
+			return "8.8.8.8:53"
+		case 2:
+			return "1.1.1.1:53"
+		case 3:
+			return "tls://9.9.9.9"
+		}
+		return fmt.Sprintf("10.9.%d.%d:53", i/200, 1+i%200)
+	})
 )
+
+// c09UpDur: how long the upstream of code u (key*4 + flags) took.  Upstream 3
+// answers in 400 ns (0 whole microseconds: responses without a time sum).
+func c09UpDur(u int, o c09Op) time.Duration {
+	if u/4 == 3 {
+		return 400 * time.Nanosecond
+	}
+	// Some microseconds depending on the query, and a part below a microsecond
+	// that Duration.Microseconds() drops.
+	salt := (o.Dom*7 + o.Cli*3) % 11
+	return time.Duration(u+1)*time.Millisecond + time.Duration(salt)*137*time.Microsecond + 300*time.Nanosecond
+}
 
 func c09MakeNames(f func(int) string) []string {
 	l := make([]string, c09MaxNames+1)
@@ -104,9 +126,9 @@ func (o c09Op) coq() string {
 	case "update":
 		ups := []string{}
 		for _, u := range o.Ups {
-			ups = append(ups, fmt.Sprintf("(%d, %s)", u/4, vfBool(u%4 == 0)))
+			ups = append(ups, fmt.Sprintf("(%d, %s, %d)", u/4, vfBool(u%4 == 0), c09UpDur(u, o).Microseconds()))
 		}
-		return fmt.Sprintf("OUpdate (mkE %s %d %d %s %d)", c09Int(int64(o.Res)), o.Dom, o.Cli, vfList("Z * bool", ups), o.T/1000)
+		return fmt.Sprintf("OUpdate (mkE %s %d %d %s %d)", c09Int(int64(o.Res)), o.Dom, o.Cli, vfList("Z * bool * Z", ups), o.T/1000)
 	case "flush":
 		return fmt.Sprintf("OFlush %d", o.ID)
 	case "restart":
@@ -186,7 +208,18 @@ type c09Obs struct {
 	Avg      int64 // avg_processing_time, whole microseconds
 	Info     int64 // GET /control/stats_info: interval in days
 	TopIPs   []int64
-	ErrMsgs  []string
+	// Upstreams, as exact integers read through loadUnits: per upstream of the
+	// merged responses with a non-zero merged time sum (key, microseconds,
+	// responses); UpAll: every upstream of either merged map.
+	UpAvg   [][3]int64
+	UpAll   map[int64][2]uint64 // key -> (responses, microseconds)
+	UpAPI   []c09UpFloat         // top_upstreams_avg_time as answered
+	ErrMsgs []string
+}
+
+type c09UpFloat struct {
+	Key int64
+	Val float64
 }
 
 func c09Pairs(ps [][2]int64) string {
@@ -224,9 +257,13 @@ func (o *c09Obs) coq() string {
 	for i, k := range o.TopIPs {
 		ips[i] = fmt.Sprint(k)
 	}
-	return fmt.Sprintf("Obs %s %d %d %s %d %s %s %d %s %s %s %d %d %s", vfBool(o.Panicked), o.Err, o.CfgMs, vfBool(o.CfgEn),
+	ups := make([]string, len(o.UpAvg))
+	for i, e := range o.UpAvg {
+		ups[i] = fmt.Sprintf("(%d, (%d, %d))", e[0], e[1], e[2])
+	}
+	return fmt.Sprintf("Obs %s %d %d %s %d %s %s %d %s %s %s %d %d %s %s", vfBool(o.Panicked), o.Err, o.CfgMs, vfBool(o.CfgEn),
 		o.CurID, vfList("Z", tot), vfBool(o.Days), o.Len, vfList("list (Z * Z)", ser),
-		vfList("list (Z * Z)", tops), c09Pairs(o.DB), o.Avg, o.Info, vfList("Z", ips))
+		vfList("list (Z * Z)", tops), c09Pairs(o.DB), o.Avg, o.Info, vfList("Z", ips), vfList("Z * (Z * Z)", ups))
 }
 
 // ---- the system under test plus the harness' own bookkeeping
@@ -240,6 +277,7 @@ type c09Sim struct {
 
 	// Independent ghost state, kept per the property statement only.
 	ghost     map[uint32]*[6]uint64 // hour -> accepted, un-cleared updates (total, nf..p)
+	ghostUp   map[uint32]map[int64][2]uint64 // hour -> upstream -> (counted responses, their microseconds)
 	unitHour  uint32                // the hour that is current for counting
 	limH      uint32                // retention limit in hours
 	enabled   bool
@@ -335,7 +373,7 @@ func (m *c09Sim) conf(ms int64, en bool) Config {
 
 func c09NewSim(t testing.TB, dir string, id0 uint32, ms int64, en bool) *c09Sim {
 	m := &c09Sim{t: t, file: filepath.Join(dir, "stats.db"), routes: map[string]http.HandlerFunc{},
-		ghost: map[uint32]*[6]uint64{}, classes: map[string]bool{}}
+		ghost: map[uint32]*[6]uint64{}, ghostUp: map[uint32]map[int64][2]uint64{}, classes: map[string]bool{}}
 	m.hour.Store(id0)
 	m.unitHour, m.limH, m.enabled = id0, uint32(ms/c09MsHour), en
 	s, err := New(m.conf(ms, en))
@@ -369,7 +407,7 @@ func c09Entry(o c09Op) *Entry {
 		ProcessingTime: time.Duration(o.T),
 	}
 	for _, u := range o.Ups {
-		us := &proxy.UpstreamStatistics{Address: c09Upstreams[u/4], QueryDuration: time.Duration(u+1) * time.Millisecond}
+		us := &proxy.UpstreamStatistics{Address: c09Upstreams[u/4], QueryDuration: c09UpDur(u, o)}
 		us.IsCached = u%2 == 1
 		if u%4 >= 2 {
 			us.Error = errors.Error("upstream failed")
@@ -427,8 +465,32 @@ func (m *c09Sim) noteRollover(id uint32) {
 	}
 }
 
+// noteUpstreams: the upstream responses of an accepted update that count
+// (not cached, no error), in the hour that is current.
+func (m *c09Sim) noteUpstreams(o c09Op) {
+	for _, u := range o.Ups {
+		if u%4 != 0 {
+			m.classes["upstream-cached-or-failed"] = true
+			continue
+		}
+		g := m.ghostUp[m.unitHour]
+		if g == nil {
+			g = map[int64][2]uint64{}
+			m.ghostUp[m.unitHour] = g
+		}
+		e := g[int64(u/4)]
+		e[0]++
+		e[1] += uint64(c09UpDur(u, o).Microseconds())
+		g[int64(u/4)] = e
+		if len(g) > maxUpstreams {
+			m.classes["upstreams-cut-to-100"] = true
+		}
+	}
+}
+
 func (m *c09Sim) noteClear(id uint32) {
 	m.ghost = map[uint32]*[6]uint64{}
+	m.ghostUp = map[uint32]map[int64][2]uint64{}
 	m.lostUpTo, m.raised = 0, false
 	m.unitHour = id
 	if m.nAccepted > 0 {
@@ -469,6 +531,7 @@ func (m *c09Sim) apply(o *c09Op) (panicked bool) {
 			m.hourUs += uint64(o.T / 1000)
 			m.hourN++
 			m.classes["update-accepted"] = true
+			m.noteUpstreams(*o)
 			if m.rsw == 1 {
 				m.rsw = 2
 			}
@@ -622,7 +685,7 @@ func c09Tops(names []string, l []map[string]uint64) (ps [][2]int64) {
 // observe reads the state through GET /control/stats, loadUnits (for the
 // not-filtered counter) and the database file.
 func (m *c09Sim) observe(panicked bool) (o *c09Obs) {
-	o = &c09Obs{Panicked: panicked, DB: [][2]int64{}}
+	o = &c09Obs{Panicked: panicked, DB: [][2]int64{}, UpAvg: [][3]int64{}}
 	for i := range o.Tops {
 		o.Tops[i] = [][2]int64{}
 	}
@@ -680,6 +743,11 @@ func (m *c09Sim) observe(panicked bool) (o *c09Obs) {
 		resp.NumReplacedSafesearch, resp.NumReplacedParental}
 	o.Tops = [4][][2]int64{c09Tops(c09Domains, resp.TopQueried), c09Tops(c09Domains, resp.TopBlocked),
 		c09Tops(c09Clients, resp.TopClients), c09Tops(c09Upstreams, resp.TopUpstreamsResponses)}
+	for _, mm := range resp.TopUpstreamsAvgTime {
+		for k, v := range mm {
+			o.UpAPI = append(o.UpAPI, c09UpFloat{c09Key(c09Upstreams, k), v})
+		}
+	}
 	// float64(whole microseconds) * 1e-6, below 2^32: the rounding is exact.
 	o.Avg = int64(math.Round(resp.AvgProcessingTime * 1e6))
 	for i := range o.Tops[:3] {
@@ -702,9 +770,30 @@ func (m *c09Sim) observe(panicked bool) (o *c09Obs) {
 			o.CurID = m.s.curr.id
 			m.s.currMu.RUnlock()
 		}
+		upN, upT := map[string]uint64{}, map[string]uint64{}
 		for _, u := range units {
 			o.Totals[1] += u.NResult[RNotFiltered]
+			for _, cp := range u.UpstreamsResponses {
+				upN[cp.Name] += cp.Count
+			}
+			for _, cp := range u.UpstreamsTimeSum {
+				upT[cp.Name] += cp.Count
+			}
 		}
+		o.UpAll = map[int64][2]uint64{}
+		for name, n := range upN {
+			k := c09Key(c09Upstreams, name)
+			o.UpAll[k] = [2]uint64{n, upT[name]}
+			if t := upT[name]; t != 0 {
+				o.UpAvg = append(o.UpAvg, [3]int64{k, int64(t), int64(n)})
+			}
+		}
+		for name, t := range upT {
+			if _, ok := upN[name]; !ok {
+				o.UpAll[c09Key(c09Upstreams, name)] = [2]uint64{0, t}
+			}
+		}
+		sort.Slice(o.UpAvg, func(i, j int) bool { return o.UpAvg[i][0] < o.UpAvg[j][0] })
 	}()
 
 	db := m.s.db.Load()
@@ -835,6 +924,69 @@ func (m *c09Sim) monitor(o *c09Obs) (ok bool, key, msg string) {
 			}
 		}
 	}
+	// Upstreams, exact integers: per upstream the responses and the sum of
+	// their durations over the window, as for the counters; an hour with more
+	// than 100 upstreams was cut, then only the upper bound holds.
+	keys := map[int64]bool{}
+	cut := false
+	for h, g := range m.ghostUp {
+		if !m.inWindow(h) {
+			continue
+		}
+		if len(g) > maxUpstreams {
+			cut = true
+		}
+		for k := range g {
+			keys[k] = true
+		}
+	}
+	for k := range o.UpAll {
+		keys[k] = true
+	}
+	for k := range keys {
+		var up, lo [2]uint64
+		for h, g := range m.ghostUp {
+			if e, ok := g[k]; ok && m.inWindow(h) {
+				up[0], up[1] = up[0]+e[0], up[1]+e[1]
+				if h > m.lostUpTo {
+					lo[0], lo[1] = lo[0]+e[0], lo[1]+e[1]
+				}
+			}
+		}
+		got := o.UpAll[k]
+		for x, what := range [2]string{"responses", "microseconds"} {
+			if got[x] > up[x] {
+				return fail("c09-upstream-more-than-counted", "upstream %s: %d %s reported, %d counted in the window", c09Upstreams[k], got[x], what, up[x])
+			}
+			if !cut && got[x] < lo[x] {
+				return fail("c09-upstream-lost", "upstream %s: %d %s reported, %d counted in hours that never left the window", c09Upstreams[k], got[x], what, lo[x])
+			}
+		}
+		if got[0] > 0 && got[1] == 0 {
+			m.classes["upstream-responses-without-time-sum"] = true
+		}
+	}
+	// The answered averages: exactly the upstreams with responses and a non-zero
+	// sum, each the one floating-point expression of the code over those two
+	// integers, largest first.
+	if len(o.UpAPI) != len(o.UpAvg) {
+		return fail("c09-upstream-avg", "top_upstreams_avg_time has %d entries, %d upstreams have responses and a time sum: %v vs %v", len(o.UpAPI), len(o.UpAvg), o.UpAPI, o.UpAvg)
+	}
+	for i, a := range o.UpAPI {
+		e, ok := o.UpAll[a.Key]
+		if !ok || e[0] == 0 || e[1] == 0 {
+			return fail("c09-upstream-avg", "top_upstreams_avg_time lists %s, which has %v (responses, microseconds)", c09Upstreams[a.Key], e)
+		}
+		if want := float64(e[1]) / float64(e[0]) * 1e-6; a.Val != want {
+			return fail("c09-upstream-avg", "upstream %s: average %v answered, %d us / %d responses is %v", c09Upstreams[a.Key], a.Val, e[1], e[0], want)
+		}
+		if i > 0 && o.UpAPI[i-1].Val < a.Val {
+			return fail("c09-upstream-avg", "top_upstreams_avg_time is not sorted: %v", o.UpAPI)
+		}
+	}
+	if len(o.UpAPI) > 0 {
+		m.classes["upstream-averages"] = true
+	}
 	return true, "", ""
 }
 
@@ -895,6 +1047,11 @@ func c09GenUpdate(r *vfRand, fast bool) c09Op {
 		o.Dom = 0
 	case 3:
 		o.Cli = 0
+	case 4:
+		if r.Chance(1, 3) {
+			// Passes validate, panics in unit.add before anything is changed.
+			o.Res = -1 - r.Intn(3)
+		}
 	}
 	for n := r.Intn(3); n > 0; n-- {
 		u := (1 + r.Intn(3)) * 4
@@ -936,7 +1093,7 @@ func c09GenAdvance(r *vfRand, limH uint32, allowZero bool) uint32 {
 // determined by the code); only the last update of the burst is observed.
 func c09GenBurst(r *vfRand, fast bool) (ops []c09Op) {
 	n := int(r.Range(101, c09MaxNames))
-	kind := r.Intn(4) // 0 domains, 1 blocked domains, 2 clients, 3 domains and clients
+	kind := r.Intn(5) // 0 domains, 1 blocked domains, 2 clients, 3 domains and clients, 4 upstreams
 	res := 1
 	if kind == 1 {
 		res = 2 + r.Intn(4)
@@ -948,11 +1105,16 @@ func c09GenBurst(r *vfRand, fast bool) (ops []c09Op) {
 		}
 		for i := 1; i <= top; i++ {
 			o := c09Op{Kind: "update", Res: res, Dom: 1 + i%4, Cli: 1 + i%3, T: c09GenTime(r, fast), Skip: true}
-			if kind != 2 {
+			if kind != 2 && kind != 4 {
 				o.Dom = i
 			}
-			if kind >= 2 {
+			if kind == 2 || kind == 3 {
 				o.Cli = i
+			}
+			if kind == 4 {
+				// One response from upstream i; its duration grows with i, so
+				// that neither the counts nor the time sums tie at the cut.
+				o.Ups = []int{i * 4}
 			}
 			ops = append(ops, o)
 		}
@@ -965,6 +1127,11 @@ func c09GenHistory(r *vfRand, steps int) (id0 uint32, ms int64, en bool, ops []c
 	id0 = uint32(r.Range(480000, 500000))
 	if r.Chance(1, 4) {
 		id0 -= id0 % 24 // midnight
+	}
+	if r.Chance(1, 25) {
+		// Hour ids around and below the limit: id-limit-1 and id-limit wrap
+		// (outside the property's domain; the model is compared).
+		id0 = uint32(r.Range(2, 9000))
 	}
 	big := r.Chance(1, 12)
 	bursts := 0
@@ -1137,6 +1304,18 @@ func c09Names(n int, res int) (ops []c09Op) {
 	return ops
 }
 
+// c09UpsBurst: one hour with responses from n distinct upstreams; the first
+// 100 answer twice (see c09GenBurst, kind 4).
+func c09UpsBurst(n int) (ops []c09Op) {
+	for _, top := range []int{n, 100} {
+		for i := 1; i <= top; i++ {
+			ops = append(ops, c09Op{Kind: "update", Res: 1, Dom: 1 + i%4, Cli: 1 + i%3, Ups: []int{i * 4}, T: 900, Skip: true})
+		}
+	}
+	ops[len(ops)-1].Skip = false
+	return ops
+}
+
 // c09Prelude: one constructed history per branch class, independent of the seed.
 func c09Prelude() (hs []struct {
 	name string
@@ -1217,6 +1396,10 @@ func c09Prelude() (hs []struct {
 	// More than 100 names in one hour.
 	add("120 domains and clients in one hour, next hour, restart", b, 24, true, seq(c09Names(120, 1), []c09Op{fl(b + 1)}, all5, []c09Op{rs(b + 1), fl(b + 2)})...)
 	add("130 blocked domains, restart in the same hour, more of them", b, 24, true, seq(c09Names(130, 2), []c09Op{rs(b)}, c09Names(105, 3), []c09Op{fl(b + 1), rs(b + 2)})...)
+	// More than 100 upstreams in one hour: the responses and the time sums are
+	// cut independently (the 100 largest counts, the 100 largest sums).
+	add("125 upstreams in one hour, next hour, restart, more", b, 24, true, seq(c09UpsBurst(125), []c09Op{fl(b + 1)}, all5, []c09Op{rs(b + 1)},
+		all5[:3], []c09Op{fl(b + 2), rs(b + 30)})...)
 	// uint32 arithmetic on hour ids below the limit: id-limit-1 wraps and New
 	// deletes every bucket (outside the property's domain; model compared).
 	add("hour ids below the limit: id-limit-1 wraps", 5, 24, true, seq(all5, []c09Op{fl(6)}, all5[:2], []c09Op{rs(6)}, all5[:1], []c09Op{fl(7), rs(7), fl(30), rs(40)})...)
